@@ -22,6 +22,7 @@ import (
 
 	"github.com/nspcc-dev/neo-go/pkg/core/block"
 	"github.com/nspcc-dev/neo-go/pkg/core/fee"
+	"github.com/nspcc-dev/neo-go/pkg/core/native/nativehashes"
 	"github.com/nspcc-dev/neo-go/pkg/core/transaction"
 	"github.com/nspcc-dev/neo-go/pkg/crypto/hash"
 	"github.com/nspcc-dev/neo-go/pkg/crypto/keys"
@@ -55,6 +56,10 @@ type chainView struct {
 	Blocked     map[util.Uint160]bool          // accounts blocked by Policy
 	AttrFee     map[transaction.AttrType]int64 // Policy attribute fees (absent = 0)
 	Contracts   map[util.Uint160]bool          // deployed contracts whose verify method accepts everything (instances of U)
+	// extension round (filled by fillExt)
+	CommitteeAddr util.Uint160     // majority multisignature account of the current committee
+	OracleAddr    util.Uint160     // multisignature account of the designated oracle nodes (zero: none)
+	OraclePending map[uint64]int64 // pending oracle request id -> GAS reserved for the response
 }
 
 type verdict struct {
@@ -213,7 +218,12 @@ func (cv *chainView) txRules(t *transaction.Transaction) []string {
 	for i := range t.Signers {
 		if len(t.Scripts[i].VerificationScript) == 0 && len(t.Scripts[i].InvocationScript) == 0 {
 			// contract signer: the deployed contract's verify method decides
-			if !cv.Contracts[t.Signers[i].Account] {
+			if t.Signers[i].Account == nativehashes.OracleContract {
+				// native Oracle: signs exactly the transactions that carry an oracle response
+				if len(t.GetAttributes(transaction.OracleResponseT)) == 0 {
+					why = append(why, fmt.Sprintf("witness %d: the Oracle contract signs oracle responses only", i))
+				}
+			} else if !cv.Contracts[t.Signers[i].Account] {
 				why = append(why, fmt.Sprintf("witness %d: no deployed verification contract", i))
 			}
 		} else if ok, s := witnessOK(t.Signers[i].Account, &t.Scripts[i], cv.Magic, t); !ok {
@@ -268,9 +278,22 @@ func (cv *chainView) txRules(t *transaction.Transaction) []string {
 			if _, ok := cv.OnChain[ch]; ok {
 				why = append(why, "conflicts with a transaction that is already on chain")
 			}
-		case transaction.HighPriority, transaction.OracleResponseT, transaction.NotaryAssistedT:
+		case transaction.HighPriority:
+			if cv.CommitteeAddr == (util.Uint160{}) || !hasSigner(t, cv.CommitteeAddr) {
+				why = append(why, "high priority attribute without the committee's signature")
+			}
+		case transaction.OracleResponseT:
+			why = append(why, cv.oracleRules(t, a.Value.(*transaction.OracleResponse))...)
+		case transaction.NotaryAssistedT:
 			why = append(why, "attribute outside the harness alphabet")
+		default:
+			if a.Type >= transaction.ReservedLowerBound {
+				why = append(why, "attribute of a reserved type")
+			}
 		}
+	}
+	if !scriptParses(t.Script) {
+		why = append(why, "script is malformed")
 	}
 	if t.Sender() == (util.Uint160{}) {
 		why = append(why, "no sender")
@@ -294,7 +317,18 @@ func (cv *chainView) judge(b *block.Block) verdict {
 		bw = append(bw, "Merkle root is not the one of the transactions")
 	}
 	spent := map[util.Uint160]int64{}
+	answered := map[uint64]int{}
+	for _, t := range b.Transactions {
+		for _, a := range t.GetAttributes(transaction.OracleResponseT) {
+			answered[a.Value.(*transaction.OracleResponse).ID]++
+		}
+	}
 	for i, t := range b.Transactions {
+		for _, a := range t.GetAttributes(transaction.OracleResponseT) {
+			if answered[a.Value.(*transaction.OracleResponse).ID] > 1 {
+				bw = append(bw, fmt.Sprintf("tx %d: another transaction of the block answers the same oracle request", i))
+			}
+		}
 		for _, w := range cv.txRules(t) {
 			bw = append(bw, fmt.Sprintf("tx %d: %s", i, w))
 		}
